@@ -22,6 +22,9 @@ class ReaderCfg(Cfg):
         self.fault = fault
         self.key_errors = key_errors
         self.ctor_props = ctor_property_params(program, "InotifyEvent")
+        # public read-only properties of the reader that only return a field (`is_recursive` -> `self._is_recursive`): a test of the
+        # field itself (read into a local, say) is the test of the property
+        self.field_props = {f"self.{f}": f"self.{p}" for p, f in trivial_getters(program, "Inotify").items()}
         self.tabled_hits: list[str] = []
         self.exclusive = [{f"rec.{k}" for k in KIND_FLAGS}]
         self.implies = [(f"rec.{a}", f"rec.{b}") for a, b in inotify_event_implications(program)]
@@ -84,6 +87,8 @@ class ReaderCfg(Cfg):
             mm = re.fullmatch(rf"{re.escape(m)}\.pop\((.+), None\) is None", text)
             if mm:
                 return f"!{mm.group(1)} in {m}"
+        if text in self.field_props:
+            return self.field_props[text]
         return super().canon_atom(text, st)
 
     def consistent(self, val):
@@ -126,6 +131,21 @@ class ReaderCfg(Cfg):
                     return ()
                 return ["KeyError"]
         return ()
+
+
+def trivial_getters(P: Program, clsname: str) -> dict[str, str]:
+    """property name -> field name, for `@property def p(self): return self._f` of the class (no setter)."""
+    out = {}
+    ci = P.classes.get(clsname)
+    for m, fi in (ci.methods.items() if ci else ()):
+        if [ast.unparse(d) for d in fi.node.decorator_list] != ["property"]:
+            continue
+        body = [b for b in fi.node.body if not (isinstance(b, ast.Expr) and isinstance(b.value, ast.Constant))]
+        if len(body) == 1 and isinstance(body[0], ast.Return) and isinstance(body[0].value, ast.Attribute):
+            v = body[0].value
+            if isinstance(v.value, ast.Name) and v.value.id == fi.node.args.args[0].arg:
+                out[m] = v.attr
+    return out
 
 
 def ctor_property_params(P: Program, clsname: str) -> dict[str, int]:
